@@ -2,4 +2,7 @@ module mc
 
 go 1.21.4
 
-require github.com/sirupsen/logrus v1.9.0
+require (
+	github.com/ishidawataru/sctp v0.0.0-20210707070123-9a39160e9062
+	github.com/sirupsen/logrus v1.9.0
+)
